@@ -185,4 +185,68 @@ theorem slice_length_eq {a X : Bytes} {p L : Nat} (h : slice a p L = X) (hL : X.
   simp only [slice_length] at this
   omega
 
+
+theorem slice_append_right' {A : Bytes} {m : Nat} (hA : A.length = m) (R : Bytes) (k len : Nat) :
+    slice (A ++ R) (m + k) len = slice R k len := by
+  subst hA; exact slice_append_right A R k len
+
+theorem slice_prefix {A : Bytes} {m : Nat} (hA : A.length = m) (R : Bytes) : slice (A ++ R) 0 m = A := by
+  subst hA; simp [slice]
+
+/-! ### `add_note` sites -/
+
+theorem add_namelen_toNat (len : Nat) (h : len + 1 < 4294967296) :
+    (note_add_namelen (BitVec.ofNat 64 len)).toNat = len + 1 := by
+  unfold note_add_namelen
+  simp only [BitVec.toNat_add, BitVec.toNat_setWidth, BitVec.toNat_ofNat, Nat.reducePow, Nat.reduceMod]
+  omega
+
+theorem add_name_unaligned_eq (x : BitVec 32) :
+    note_add_name_unaligned x 4#32 = decide (x.toNat % 4 ≠ 0) := by
+  unfold note_add_name_unaligned
+  by_cases h : x % 4#32 = 0#32
+  · have : x.toNat % 4 = 0 := by
+      have := congrArg BitVec.toNat h
+      simpa [BitVec.toNat_umod] using this
+    simp [h, this]
+  · have : x.toNat % 4 ≠ 0 := fun e => h (BitVec.eq_of_toNat_eq (by simpa [BitVec.toNat_umod] using e))
+    simp [h, this]
+
+theorem add_name_pad_toNat (x : BitVec 32) : (note_add_name_pad 4#32 x).toNat = 4 - x.toNat % 4 := by
+  unfold note_add_name_pad
+  have h4 : BitVec.signExtend 64 4#32 = 4#64 := by decide
+  rw [h4, BitVec.toNat_sub, BitVec.toNat_setWidth, BitVec.toNat_umod]
+  simp only [BitVec.toNat_ofNat, Nat.reducePow, Nat.reduceMod]
+  omega
+
+theorem add_desc_unaligned_eq (x : BitVec 32) :
+    note_add_desc_unaligned x 4#32 = decide (x.toNat % 4 ≠ 0) := add_name_unaligned_eq x
+
+theorem add_desc_pad_toNat (x : BitVec 32) : (note_add_desc_pad 4#32 x).toNat = 4 - x.toNat % 4 :=
+  add_name_pad_toNat x
+
+theorem add_has_desc_eq (isNone : Bool) (d : BitVec 32) :
+    note_add_has_desc isNone d = (!isNone && decide (d.toNat ≠ 0)) := by
+  unfold note_add_has_desc
+  by_cases h : d = 0#32
+  · subst h; simp
+  · have : d.toNat ≠ 0 := fun e => h (BitVec.eq_of_toNat_eq (by simpa using e))
+    simp [h, this]
+
+theorem padBytes_ok (site : String) (n : BitVec 64) (h : n.toNat ≤ 4) :
+    Note.padBytes site n = .ok (List.replicate n.toNat 0) := by
+  unfold Note.padBytes
+  rw [rdRange_some_ok (by simpa using h)]
+  generalize n.toNat = k at *
+  have : k = 0 ∨ k = 1 ∨ k = 2 ∨ k = 3 ∨ k = 4 := by omega
+  rcases this with rfl | rfl | rfl | rfl | rfl <;> rfl
+
+theorem str_len_eq (len : Nat) (h : len < 4294967296) :
+    (sec64_append_str_len (BitVec.ofNat 64 len)).toNat = len := by
+  unfold sec64_append_str_len
+  simp only [BitVec.toNat_setWidth, BitVec.toNat_ofNat, Nat.reducePow]
+  omega
+
+theorem str_len32_eq : sec32_append_str_len = sec64_append_str_len := rfl
+
 end ElfioVerif
